@@ -652,6 +652,57 @@ pub fn exec(pool: &mut Pool, ev: &mut Value) {
             set(ev, "args", json!(args));
             set(ev, "out", json!(out));
         }
+        // long quad structures: `base` copies of one symbol, then a short tail (positions stay below 2^31)
+        "newbigq" => {
+            let o = ev["o"].as_i64().unwrap();
+            let kind = ev["kind"].as_str().unwrap().to_string();
+            let base = ev["base"].as_u64().unwrap_or(0) as usize;
+            let f = ev["f"].as_u64().unwrap_or(0) as u8;
+            let tail: Vec<u8> = alpha_vals(ev).into_iter().map(|x| (x & 3) as u8).collect();
+            if mem_available_kib().map(|k| (k as u128) * 1024 < (base as u128) * 20 + (4u128 << 30)).unwrap_or(false) {
+                set(ev, "out", json!(SKIP));
+                return;
+            }
+            match guard(|| make_bigq(&kind, base, f, tail)) {
+                Ok(Some(x)) => {
+                    pool.objs.insert(o, x);
+                    pool.big.insert(o, base);
+                    set(ev, "out", json!(0));
+                }
+                Ok(None) => set(ev, "out", json!(NA)),
+                Err(_) => set(ev, "out", json!(PANIC)),
+            }
+        }
+        "qbigq" => {
+            let o = ev["o"].as_i64().unwrap();
+            let m = ev["m"].as_str().unwrap().to_string();
+            let c = ev["c"].as_u64().unwrap_or(0) as u128;
+            let rel: Vec<i64> = ev["rel"].as_array().map(|a| a.iter().map(|v| v.as_i64().unwrap()).collect()).unwrap_or_default();
+            let relative = ev["form"].as_str() == Some("rel");
+            let mut args = vec![];
+            let mut out = vec![];
+            if let (Some(x), Some(&base)) = (pool.objs.get(&o), pool.big.get(&o)) {
+                let tree = is_tree(&**x);
+                for r in rel {
+                    let a = if relative { (base as i64 + r) as usize } else { r as usize };
+                    args.push(res_val(a));
+                    if tree && m == "get" {
+                        // a tree answers get with a symbol: rendered as its integer value
+                        let v = gv(|| x.callv("get", &[a]));
+                        out.push(match v.as_array() {
+                            Some(arr) if arr.len() >= 2 => arr[1].as_i64().unwrap_or(NA),
+                            Some(arr) if arr.len() == 1 && arr[0].as_i64() == Some(0) => 0,
+                            Some(arr) if arr.len() == 1 => arr[0].as_i64().unwrap_or(NA),
+                            _ => NA,
+                        });
+                    } else {
+                        out.push(gi(|| x.call(&m, c, &[a])));
+                    }
+                }
+            }
+            set(ev, "args", json!(args));
+            set(ev, "out", json!(out));
+        }
         // position iterators of the big bit structures, started at base + rel
         "ithbig" => {
             let o = ev["o"].as_i64().unwrap();
